@@ -170,6 +170,17 @@ def load_known(prop):
     return out
 
 
+_KNOWN_CACHE = {}
+
+
+def still_known(prop, signature):
+    """True while known_findings.jsonl lists `signature` for `prop` with status `known`. Checks use it
+    so that the domain of a finding that has been repaired (`fixed`) is searched again."""
+    if prop not in _KNOWN_CACHE:
+        _KNOWN_CACHE[prop] = {e["signature"] for e in load_known(prop) if e.get("status") == "known"}
+    return signature in _KNOWN_CACHE[prop]
+
+
 def sig_matches(entry_sig, sig):
     """Exact match, or prefix match when the entry ends with '*'."""
     if entry_sig.endswith("*"):
